@@ -345,6 +345,30 @@ func (r *Raft) restore() error {
 		if err := file.Close(); err != nil {
 			return fmt.Errorf("could not close snapshot file: %w", err)
 		}
+
+		// The process may have stopped after this snapshot became visible but before the log
+		// was trimmed to it. Trim the log now so that it starts at the last included index of
+		// the snapshot again: keep the entries after it if the log matches the snapshot there,
+		// otherwise the log is stale or too short and is replaced entirely.
+		index, term := metadata.LastIncludedIndex, metadata.LastIncludedTerm
+		if r.log.Contains(index) {
+			entry, err := r.log.GetEntry(index)
+			if err != nil {
+				return fmt.Errorf("could not get entry from log: %w", err)
+			}
+			if entry.Term == term {
+				err = r.log.Compact(index)
+			} else {
+				err = r.log.DiscardEntries(index, term)
+			}
+			if err != nil {
+				return fmt.Errorf("could not trim log to snapshot: %w", err)
+			}
+		} else if r.log.LastIndex() < index {
+			if err := r.log.DiscardEntries(index, term); err != nil {
+				return fmt.Errorf("could not trim log to snapshot: %w", err)
+			}
+		}
 	}
 
 	// Use the most recent configuration from the log.
